@@ -397,13 +397,15 @@ def attrNames (cs : List Cls) (kind : String) : List String :=
     attribute list) and `define_association` raise `UnknownClassException` on an undeclared
     kind — classes inferred from INSERTs do not exist yet in phases 2 and 3 —;
     `define_association` raises on an identifying attribute the referred class lacks and on key lists of
-    different length;
+    different length; `define_class` raises on two attributes of the same name (the code compares the names
+    upper-cased; the model's domain spells a name in one letter case);
     phase 4 raises `ParsingException` on a named INSERT whose numbers of names and values differ. -/
 def accepted (ss : List Stmt) : Bool :=
   let cs := popClasses ss
   let kinds := cs.map (·.kind)
   decide kinds.Nodup
   && ss.all (fun s => match s with
+      | .cls _ as => decide (as.map (·.1)).Nodup
       | .uniq k _ as => as.isEmpty || kinds.contains k
       | .assoc a => kinds.contains a.srcKind && kinds.contains a.tgtKind
           && a.tgtKeys.all (fun n => (attrNames cs a.tgtKind).contains n)
